@@ -20,6 +20,37 @@ META = {
 }
 CLAIMED = ["C01", "C05", "C10", "C18"]
 
+META.update({
+ "C02": dict(technique="symbolic extraction of formatter templates + exhaustive finite fold over the abstract timedelta; def-use of emitted stamps",
+    text="Decides the formatter and emission clauses of C02 from source: the shared hh:mm:ss.mmm formatter and the WebVTT formatter are extracted symbolically (divmod/floor forms, format specs) and folded over ALL 86 400 values of timedelta.seconds plus millisecond boundaries against the reference rendering (carries, zero padding, hours shown exactly when non-zero); MicroDVD us*fps/10^6 and SAMI us//1000 have the right coefficients and integer kind; each writer's timing template prints this caption's start then end; SAMI blank-sync test is `start != previous end`; merging is guarded by equality of both start and end. Not decided: value-dependent SAMI blank-sync placement, WebVTT splitting.",
+    note="Trusted: datetime.timedelta normalisation facts (listed in the evidence), str.format semantics for 'd' specs, the reference renderings in the check."),
+ "C06": dict(technique="linear-form abstract interpretation of the timecode arithmetic + exactly-once path rule on the word dispatcher",
+    text="Decides: _translate_time is (3600h+60m+s+f/30) x (1001/1000 for ':' | 1 for ';') x 10^6 - offset with the clamp testing the returned value; read() scales the offset by 10^6; every path through _translate_word counts exactly one frame after handling the word; thresholds (5 frames + 1 us, 4 s default over all trailing open captions, 0 < d < 50000 -> CaptionReadTimingError); EOC/EDM def-use of get_time(); the doubling memory is written only by the doubling handler. Not decided: which captions a stream yields, ordering.",
+    note="Trusted: the structural match of get_time()'s stamp re-assembly (an unrecognised rewrite is ANALYSIS-ERROR); control-code values from sa/spec/cea608.py."),
+ "C12": dict(technique="constant folding of the alignment maps over their enums, symbolic evaluation of the WebVTT cue-setting arithmetic on geometry objects",
+    text="Decides: external/internal alignment maps are mutual inverses for every enum member and use the TTML vocabulary; WEBVTT_VERSION_OF is total; attribute names written == read with the right factories; a layout gets a region iff any component is present; WebVTT position/line/size are origin.x+padding.start / origin.y+padding.before / extent.h-padding.start-padding.end (percent), align omitted exactly for centre; raw cue settings flow verbatim from the timing line into the output; fallback node>caption>language>set>default; layouts are sound dictionary keys; the cue-splitting test has no extra condition. Not decided: effective layout per character after re-reading.",
+    note="Trusted: Size.__add__/__sub__ semantics are read from the source by the same evaluator; bs4 is opaque."),
+ "C13": dict(technique="linear-form abstract interpretation per unit (piecewise on the finite unit enum), must-raise and guard dominance, layout-level coverage",
+    text="Decides: Size.as_percentage_of has the specified coefficient for each of the five units and each axis, refuses (RelativizationError) when no or both dimensions are given for every absolute unit; axis routing of Point/Stretch/Padding/Layout; fit_to_screen replaces an axis exactly when origin+extent exceeds 90/95 with 90-x / 95-y and fills a missing extent to the edges; the writer entry point applies relativize then fit, each guarded only by its own option; every layout level a writer consumes was relativized (F14 = known finding for DFXP language/set level); WebVTT prints only sizes that passed as_percentage_of or is_relative(). Not decided: float results for particular magnitudes.",
+    note="Trusted: geometry objects are truthy (C18 R-BOOL-STRUCTURAL); the oracle constants in sa/spec/geometry_spec.py."),
+ "C15": dict(technique="path rule on the scan loop (every path adds, none replaces) + structural identity of the measured text",
+    text="Decides C15's mechanism completely at the level of shape: on every path through the scan loop this caption's offenders are ADDED to the accumulator and nothing replaces earlier entries; the scan walks the collection get_all() returns from; the measured text is the whole joined caption split at line breaks with limit 32; a non-empty message raises CaptionLineLengthError before any return and every start time contributes. The line lengths themselves come from the decoder (C05/C16) and are not decided.",
+    note="Trusted: Caption.get_text_nodes' shape (checked), defaultdict(list) semantics."),
+ "C16": dict(technique="pairing/ordering path rules over the buffer handlers (store-before-discard, discard-after-store), must-call ordering",
+    text="Thin claim, pairing and ordering only: in every handler that replaces the active buffer (mode-switch flush, roll-up, RDC/RUx/EOC branches) each path stores the buffer exactly once before discarding it and discards it after storing it (no loss, no duplicate emission), the erase command excepted; read() flushes after the last line and before collecting; the flush observer is registered before the first activation and sees the old key; _roll_up stores at the old time, then takes the new time, then force-ends the previous captions; emptiness looks at every node; every trailing open caption gets an end. Character conservation as such is NOT decided.",
+    note="Trusted: loops summarised as zero-or-one iteration (exact for these per-statement obligations)."),
+ "C17": dict(technique="table rules (parity, inverse, CEA-608 reference), symbolic fold of the timecode formatter, mod-5 length automaton of the word assembler",
+    text="Decides: every byte the writer can emit (character tables, PAC bytes, literal command words, filler, fallback) has odd parity; writer PAC bytes address (row,0) by the reader's map and the CEA-608 reference; CHARACTER_TO_CODE inverts CHARACTERS; every line passes textwrap.fill(.,32); the hh:mm:ss:ff formatter equals the reference on 2 880 boundary timecodes; pre-roll = payload words + the literal command words actually written, compared against the pre-rolled start; HEADER shared with detect; len(code)%5 abstract interpretation shows only whole 4-hex words are emitted. Not decided: timing slack, re-read equality.",
+    note="Trusted: textwrap defaults (break at spaces, split long words)."),
+ "C19": dict(technique="linear forms of the retiming assignments, boundary operator, merge-key and separator guards",
+    text="Decides: new start/end are t*skew+offset (both), the keep-test reads the new start with `>= 0`, kept captions are appended in order with nodes untouched and stored back under the same language; merge_concurrent_captions compares (start,end) of consecutive captions as numbers; merge() inserts exactly one unconditional break between captions, appends all nodes in order and keeps the first caption's times. Not decided: maximality of runs, idempotence.",
+    note="Trusted: -"),
+ "C20": dict(technique="constant folding of the reader order, exception-freedom scan with guard recognition, marker agreement + regular-language inclusion for MicroDVD",
+    text="Decides: probe order, first-accept loop and emptiness guard of detect_format; every construct of the six detect methods that can raise on a non-empty str is discharged by a recognised guard (length test in a short-circuit/if, index 0 of splitlines, except IndexError); readers construct without arguments; each writer's skeleton contains its reader's marker, no earlier sniffer's marker occurs in a later skeleton, every document MicroDVDWriter can produce is in the sniffer's language (shortest counter-example otherwise). Not decided: that the detected reader reads the document.",
+    note="Trusted: non-empty str has >= 1 line under splitlines(); bs4 keeps the skeleton's root tags."),
+})
+CLAIMED += ["C02", "C06", "C12", "C13", "C15", "C16", "C17", "C19", "C20"]
+
 def main():
     props = [json.loads(l) for l in open(f"{V}/properties.jsonl")]
     checks, na = [], []
@@ -48,7 +79,7 @@ def main():
                   "enable": "none: static analysis reads /repo/pycaption/**/*.py as text; no hooks or instrumentation exist",
                   "baseline_off_cmd": "cd /repo && /venv/bin/python -m pytest -q -p no:cacheprovider --timeout=900 --continue-on-collection-errors",
                   "source_commits": [], "add_only": True},
-        "engines": [{"name": "sa", "path": "/verif/sa", "serves_properties": CLAIMED,
+        "engines": [{"name": "sa", "path": "/verif/sa", "serves_properties": sorted(CLAIMED),
                      "kind_free_text": "repository-specific static analysis: ast index/call resolution, constant folding, "
                                        "symbolic linear forms, regular-language engine, effect/taint abstract interpretation, path rules"}],
         "checks": checks,
